@@ -126,6 +126,8 @@ def _shape(t, depth=0):
         names = tuple("$%d" % (depth + i) for i in range(len(t[1])))
         return ("closure", names, _shape(sym.subst(t[2], {p: ("param", n) for p, n in zip(t[1], names)}), depth + len(names)))
     t = tuple(_shape(x, depth) for x in t)
+    if t[:1] == ("call",) and len(t) == 3 and ((t[1] == "Vec::with_capacity" and len(t[2]) == 1) or (t[1] == "Vec::new" and not t[2])):
+        return ("list", ())      # an empty list, however it is allocated
     if len(t) == 3 and t[0] == "phi" and t[1][0] == "if" and isinstance(t[1][1], tuple) and t[1][1][:2] == ("op", "Not") and len(t[2]) == 2 \
             and t[2][0][0] == "then" and t[2][1][0] == "else":
         return ("phi", ("if", t[1][1][2]), (("then", t[2][1][1]), ("else", t[2][0][1])))
